@@ -203,6 +203,15 @@ where
     })
 }
 
+/// Shift counts outside of the bit width of [`i32`] have no result.
+fn shift_count(count: i32) -> Option<u32> {
+    if (0..i32::BITS as i32).contains(&count) {
+        Some(count as u32)
+    } else {
+        None
+    }
+}
+
 impl TypeConstants for SimpleNumber {
     fn one() -> Self {
         Integer(1)
@@ -449,14 +458,14 @@ impl GarnishNumber for SimpleNumber {
 
     fn bitwise_shift_left(self, rhs: Self) -> Option<Self> {
         Some(match (self, rhs) {
-            (Integer(v1), Integer(v2)) => Integer(v1 << v2),
+            (Integer(v1), Integer(v2)) => Integer(v1 << shift_count(v2)?),
             _ => return None,
         })
     }
 
     fn bitwise_shift_right(self, rhs: Self) -> Option<Self> {
         Some(match (self, rhs) {
-            (Integer(v1), Integer(v2)) => Integer(v1 >> v2),
+            (Integer(v1), Integer(v2)) => Integer(v1 >> shift_count(v2)?),
             _ => return None,
         })
     }
